@@ -16,37 +16,10 @@ import Kanal.Lemmas.Reach
 namespace Kanal.C12
 open Kanal Chan State
 
-/-- Counters = ledger while open; both zero once closed. -/
-def CountInv (s : State) : Prop :=
-  (s.closedOnce = false → s.chan.sendCount = s.liveS ∧ s.chan.recvCount = s.liveR) ∧
-  (s.closedOnce = true → s.chan.sendCount = 0 ∧ s.chan.recvCount = 0)
-
-theorem countInv_init (cap) : CountInv (State.init cap) := by
-  simp [CountInv, State.init, Chan.new]
-
-theorem countInv_step {v s l p} (h : CountInv s) (e : step v s l = some p) : CountInv p.1 := by
-  by_cases hl : Label.isPlain l = true
-  · obtain ⟨⟨-, h2, h3⟩, h4, h5, h6⟩ := step_quiet hl e
-    unfold CountInv at *
-    rw [h2, h3, h4, h5, h6]; exact h
-  · cases l <;> simp [Label.isPlain] at hl <;> simp only [step] at e
-    case clone side =>
-      cases side <;> simp only at e <;> step_leaves e <;> simp [CountInv, cloneCS] at * <;> grind
-    case dropHandle side =>
-      cases side <;> simp only at e <;> step_leaves e <;>
-        simp [CountInv, dropCS, terminateAll] at * <;> grind
-    case close =>
-      step_leaves e
-      · exact h
-      · rename_i heq
-        unfold closeCS at heq
-        split at heq <;> cases heq
-        simp [CountInv] at *
-
 /-- **C12 (counts).** In every reachable state of an open channel the counters the
     code keeps equal the number of live handles of each side; on a closed channel both are zero. -/
 theorem c12_counts (v : Variant) (s : State) (h : Reach v s) : CountInv s :=
-  Reach.induct countInv_init (fun _ _ _ _ ih e => countInv_step ih e) s h
+  countInv_reach v s h
 
 /-- What the observers return: `sender_count()` / `receiver_count()` are the ledger on an open channel. -/
 theorem c12_observed (v : Variant) (s : State) (h : Reach v s) (ho : s.closedOnce = false) :
